@@ -95,6 +95,10 @@ class ExprMixin:
             return V(ty, self.str_atoms[ty.name](v.z))          # text of a path: an abstract path value
         if isinstance(ty, T.Atom) and v.ty is T.STR and z3.is_string_value(v.z):
             return V(ty, self.intern(ty, v.z.as_string()))     # a literal naming an abstract value
+        if isinstance(v.ty, T.Opt) and v.ty.elem == ty:
+            # an optional value used where the plain type is expected (callers have tested it): the value itself.
+            # (None flowing into a typed parameter is outside the typed model.)
+            return V(ty, v.ty.get(v.z))
         if isinstance(ty, T.Opt):
             if v.ty is T.NONE:
                 return V(ty, ty.none())
